@@ -30,6 +30,16 @@ Theorem C03_ltf_grid_real : forall ph fuel (c : cfg RA) bs, admissible c -> ltf_
 Proof. exact ltf_grid_ok. Qed.
 Print Assumptions C03_ltf_grid_real.
 
+Theorem C03_vectorized_grid_real : forall sq fuel (c : cfg RA) grid bs, admissible c -> vec_bins RA sq fuel c grid = Ok bs ->
+  chain RA (fmin_vec RA c) bs /\ increasing_from (fmin_vec RA c) bs /\
+  Forall (fun b : bin RA => (br b * IZR (bL b) = cfs c /\ bf b < cfs c / 2 /\ bb b = bf b * IZR (bL b) / cfs c)%R) bs.
+Proof. exact vec_grid_ok. Qed.
+Theorem C03_new_ltf_grid_real : forall ph ex lg fuel (c : cfg RA) J bs, admissible c -> new_bins RA ph ex lg fuel c J = Ok bs ->
+  chain RA (fmin RA c) bs /\ increasing_from (fmin RA c) bs /\
+  Forall (fun b : bin RA => (br b * IZR (bL b) = cfs c /\ bf b < cfs c / 2 /\ bb b = bf b * IZR (bL b) / cfs c)%R) bs.
+Proof. exact new_grid_ok. Qed.
+Print Assumptions C03_new_ltf_grid_real.
+
 Theorem C03_lpsd_is_ltf : forall (A : Arith) ph fuel (c : cfg A),
   ltf_bins A ph fuel (lpsd_cfg c) = ltf_bins A ph fuel (mkCfg (cN c) (cfs c) (colap c) (one A) 1%Z (cKdes c) (clogfact c)).
 Proof. exact lpsd_is_ltf. Qed.
